@@ -7,6 +7,7 @@
 #include "mir-gen.h"
 typedef struct { int64_t i; double d; } ret_t;
 static int64_t ext_ii (int64_t a, int64_t b) { printf ("  ext_ii(%ld,%ld)\n", a, b); return (int64_t) ((uint64_t) a * 3 + ((uint64_t) b ^ 0x55)); }
+static double ext_d (double x, int64_t n) { fprintf (stderr, "ext_d(%a, %ld)\n", x, (long) n); return x * 0.5 + (double) (n & 0xffff); }
 int main (int argc, char **argv) {
   FILE *f = fopen (argv[1], "r");
   static char text[1 << 20];
@@ -31,6 +32,7 @@ int main (int argc, char **argv) {
       if (it->item_type == MIR_func_item && !strcmp (it->u.func->name, "entry")) entry = it;
   }
   MIR_load_external (ctx, "ext_ii", ext_ii);
+  MIR_load_external (ctx, "ext_d", ext_d);
   if (e == 'i') {
     MIR_link (ctx, MIR_set_interp_interface, NULL);
     MIR_val_t res[4], args[5];
